@@ -50,6 +50,9 @@ RULE = (
     " Thirteen BER-like reply contents (valid message, trailing octets, truncated, odd length"
     " forms) must come back unmodified; outcome \"closed\" = the attempt's transport goes away "
     "without an error (retried or reported, never CancelledError)."
+    " Outcome \"jump\": no reply and the wall clock stepped forward by an hour during the attem"
+    "pt. Real sockets: a foreign task blocks the loop for 1.3 s during an unanswered attempt "
+    "(at most `retries` datagrams reach the peer)."
 )
 ASSUMPTIONS = [
     "the fake transport follows asyncio's selector datagram transport closing semantics (no delivery after close/abort, connection_lost via call_soon)",
